@@ -203,6 +203,14 @@ def make_stream(ctx, k):
     B0, D0 = cases.tables(mtv)
     B, D = dict(B0), dict(D0)
     std = [1001, 12001, 4024, 2001, 1015, 5001, 10004, 20011]
+    if mtv != 33:
+        # standard elements that version `mtv` and version 33 define differently: a data message that names version 33 after one
+        # with the same descriptor list under `mtv` (or the other way round) still gets each version's own meaning
+        B33v, _ = cases.tables(33)
+        differ = [e for e in sorted(B0) if e in B33v and tuple(B0[e][2:5]) != tuple(B33v[e][2:5]) and e // 1000 not in (0, 31, 33)
+                  and R.kind_of(B0[e][1]) == R.kind_of(B33v[e][1]) and max(B0[e][4], B33v[e][4]) <= 32]
+        if differ:
+            std = std + rng.sample(differ, min(3, len(differ)))
     parts = []
     expected = []
     stats = dict(defs=0, redefs=0, rep_only=0)
@@ -308,6 +316,10 @@ def make_stream(ctx, k):
                 local = None
                 if reuse:
                     dmeta['master_table_version'] = reuse[1]
+                    if mtv != 33 and rng.random() < 0.5:
+                        # ... or the same list under the OTHER table version
+                        dmeta['master_table_version'] = 33 if reuse[1] == mtv else mtv
+                        stats['reused_descriptor_lists_other_version'] = stats.get('reused_descriptor_lists_other_version', 0) + 1
                 if LOCALS and rng.random() < 0.3 and not reuse:
                     # the header selects bundled local tables: the in-stream entries must be in force there too
                     ce, su, lv = rng.choice(LOCALS)
@@ -436,6 +448,7 @@ def run(ctx):
             ctx.count('sequence_redefinitions', stats.get('seq_redefs', 0))
             ctx.count('standard_sequences_used', stats.get('standard_sequences_used', 0))
             ctx.count('reused_descriptor_lists', stats.get('reused_descriptor_lists', 0))
+            ctx.count('reused_descriptor_lists_other_version', stats.get('reused_descriptor_lists_other_version', 0))
             multi = 'multi-def' if stats['defs'] > 1 else 'single-def'
             if out.get('error'):
                 ctx.evaluated(stream.hex(), True)
